@@ -652,6 +652,36 @@ def refusal_rule(ctx, fv):
                       "cli() no longer refuses m >= 31 and the clap range %s admits it" % (fmt_range(rg) if rg else "<none>"), fv.fn["sp"])
             continue
         if r is None:
+            # the same refusal without a `return`: a branch taken under the condition that prints the diagnostic, while
+            # every output-creating call of the arm runs only under the negated condition
+            def holds(g, pol, want_pol):
+                s_ = gshow(fv.term(g), True)
+                if want[name](s_):
+                    return pol == want_pol
+                kind = classify_refusal(cmdnorm(fv.term(g))) if name.startswith("Min:") else None
+                if kind is not None and kind == {"Min:window_not_longer_than_m": "window", "Min:m_too_long": "m_too_long"}.get(name):
+                    return pol == want_pol
+                return False
+            diags = [x for x in fv.nodes if x.get("k") == "call" and cname(x) in ("std::io::_eprint", "std::io::_print")
+                     and any(holds(g, pol, True) for g, pol in fv.guards(x))]
+            arm_name = name.split(":")[0]
+            in_arm = []
+            for n in fv.nodes:
+                if n.get("k") in ("call", "mcall") and (cname(n) in creators or rname(n) in creators):
+                    for a in fv.ancestors(n):
+                        if a.get("k") == "match" and any(arm_variant(ar["pat"]) == arm_name and any(x is n for x in walk(ar["body"]))
+                                                         for ar in a["arms"]):
+                            in_arm.append(n)
+                            break
+            dg = set((repr(fv.term(g)), pol) for d_ in diags[:1] for g, pol in fv.guards(d_))
+            unguarded = [n for n in in_arm if not any(holds(g, pol, False) for g, pol in fv.guards(n))
+                         and not any((repr(fv.term(g)), not pol) in dg for g, pol in fv.guards(n))]
+            if diags and in_arm and not unguarded:
+                ctx.ok("C15.Z", name, "refused by a diagnostic-only branch; every output-creating call of the arm runs "
+                       "under the negated condition", line_of(diags[0]))
+                ctx.ok("C15.Z", name + ":diagnostic", "prints a diagnostic", line_of(diags[0]))
+                ctx.ok("C15.Z", name + ":before_output", "no output-creating call is reachable under the refusal", line_of(diags[0]))
+                continue
             ctx.fail("C15.Z", name, "the refusal `%s` (diagnostic + return before any output) is gone from cli()" % name, fv.fn["sp"])
             continue
         # diagnostic before the return, in the same block
